@@ -6,7 +6,7 @@
 //! with the C18 outcome oracle (`e2e` op).
 //!
 //! ops.txt line:  `e2e <nameA> <nameB> <k> <dirs: a|b per connection>`
-//! impl.txt line: `<A: sorted kept connection indices>|<B: …>|<A: ready conn idx (alive)>|<B: …>`
+//! impl.txt line: `<A: sorted kept connection indices>|<B: …>|<A: ready events of kept sessions, not de-duplicated>|<B: …>|<A: all ready events in order>|<B: …>`
 //!
 //! usage: c18e2e --seed S --cases N --out DIR
 
@@ -107,6 +107,266 @@ async fn sessions(
     v
 }
 
+
+/// Like `schedule`, but the tasks whose ids are in `starve` are never polled (a node whose
+/// `NodeServer` does not get to run for a while: load, a slow subscriber callback, …).
+async fn schedule_except(ctl: &ractor::verif::Controller, rng: &mut Rng, budget: usize, st: &mut Stats, starve: &[usize]) -> bool {
+    for _ in 0..budget {
+        let runnable: Vec<_> = ctl.tasks().into_iter().filter(|t| t.runnable() && !starve.contains(&t.id)).collect();
+        if runnable.is_empty() {
+            for _ in 0..3 {
+                tokio::task::yield_now().await;
+            }
+            if ctl.tasks().iter().all(|t| !t.runnable() || starve.contains(&t.id)) {
+                return true;
+            }
+            continue;
+        }
+        let t = runnable[rng.below(runnable.len() as u64) as usize].clone();
+        let before = t.polls();
+        t.grant();
+        let mut spins = 0;
+        while t.polls() == before && !t.is_done() {
+            tokio::task::yield_now().await;
+            spins += 1;
+            if spins > 10_000 {
+                st.bump("grant_not_polled");
+                break;
+            }
+        }
+        st.bump("polls");
+    }
+    false
+}
+
+/// Spawn one NodeServer with the scheduler running alongside; returns the actor, its join handle
+/// and the controller id of its message-loop task (the last task registered by the spawn).
+async fn spawn_node_alone(
+    ctl: &ractor::verif::Controller,
+    rng: &mut Rng,
+    st: &mut Stats,
+    name: &str,
+    host: &str,
+) -> Option<(ActorRef<NodeServerMessage>, ractor::concurrency::JoinHandle<()>, usize)> {
+    let first = ctl.len();
+    let f = tokio::spawn(Actor::spawn(None, NodeServer::new(0, "cookie".to_string(), name.to_string(), host.to_string(), None, None), ()));
+    let mut guard = 0;
+    while !f.is_finished() {
+        schedule(ctl, rng, 50, st).await;
+        tokio::task::yield_now().await;
+        guard += 1;
+        if guard > 5000 {
+            return None;
+        }
+    }
+    let (a, h) = f.await.ok()?.ok()?;
+    // tasks registered by the spawn: the listener's loop (spawned inside `pre_start`), then the
+    // NodeServer's own message loop - the last one
+    let last = ctl.len().checked_sub(1)?;
+    if last < first {
+        return None;
+    }
+    Some((a, h, last))
+}
+
+/// The election's own timeout (node_session.rs, `CheckSession` with a 500 ms deadline right after
+/// authenticating). Node A's name sorts last, so a dial by A beats a dial by B.
+///  1. connection c0 dialled by B is established and ready on both nodes;
+///  2. A dials c1 (the connection both elections prefer); from then on A's `NodeServer` task is not
+///     scheduled; everything else runs to rest: B elects c1 and closes c0, A's c1 session has
+///     authenticated and waits for A's `NodeServer` to answer `CheckSession`;
+///  3. the (paused) clock is advanced by `adv` ms (0 = control, 600 = past the deadline);
+///  4. A's `NodeServer` runs again, everything runs to rest.
+/// op  `e2t <nameA> <nameB> adv=<ms> c1=<a|b>`
+/// impl `<A kept before>/<B kept before> <A kept>|<B kept>|<A ready events, raw>|<B ready events, raw>`
+async fn timeout_case(log: &mut Log, st: &mut Stats, rng: &mut Rng, case_no: u64) {
+    let pool = [("b", "a"), ("n2", "n10"), ("x", "Y")];
+    let (na, nb) = *rng.pick(&pool);
+    let adv: u64 = *rng.pick(&[0u64, 600, 600, 499, 5000]);
+    // who dials c1: A (its session on A is client-side: only the POST-authentication check needs A's
+    // NodeServer) or B (A's session is server-side: the PRE-authentication check times out => that
+    // connection closes, the established link must stay)
+    let c1_by_a = rng.chance(2, 3);
+    let host = format!("t{case_no}");
+    let ctl = ractor::verif::install();
+    let Some((a, ha, a_task)) = spawn_node_alone(&ctl, rng, st, na, &host).await else {
+        log.rec(format!("e2t {na} {nb} spawn-stuck"), "error");
+        ractor::verif::uninstall();
+        return;
+    };
+    let Some((b, hb, _)) = spawn_node_alone(&ctl, rng, st, nb, &host).await else {
+        log.rec(format!("e2t {na} {nb} spawn-stuck"), "error");
+        ractor::verif::uninstall();
+        return;
+    };
+    let ev_a = Arc::new(Mutex::new(Events::default()));
+    let ev_b = Arc::new(Mutex::new(Events::default()));
+    a.cast(NodeServerMessage::SubscribeToEvents { id: "v".into(), subscription: Box::new(Sub(ev_a.clone())) }).unwrap();
+    b.cast(NodeServerMessage::SubscribeToEvents { id: "v".into(), subscription: Box::new(Sub(ev_b.clone())) }).unwrap();
+    schedule(&ctl, rng, 200, st).await;
+    let open = |node: &ActorRef<NodeServerMessage>, s: tokio::io::DuplexStream, i: usize, is_server: bool| {
+        node.cast(NodeServerMessage::ConnectionOpenedExternal { stream: Box::new(Duplex { stream: s, label: format!("c{i}") }), is_server }).unwrap();
+    };
+    // 1. c0, dialled by B
+    let (sa, sb) = tokio::io::duplex(64 * 1024);
+    open(&a, sa, 0, true);
+    open(&b, sb, 0, false);
+    schedule(&ctl, rng, 200_000, st).await;
+    let before_a = sessions(&ctl, rng, st, &a).await;
+    let before_b = sessions(&ctl, rng, st, &b).await;
+    // 2. c1, dialled by A; A's NodeServer creates the session, then is starved
+    let (sa, sb) = tokio::io::duplex(64 * 1024);
+    open(&a, sa, 1, !c1_by_a);
+    schedule(&ctl, rng, 200_000, st).await;
+    open(&b, sb, 1, c1_by_a);
+    let starve = [a_task];
+    schedule_except(&ctl, rng, 200_000, st, &starve).await;
+    if std::env::var("E2T_DEBUG").is_ok() {
+        for t in ctl.tasks() {
+            eprintln!("task {} name={:?} runnable={} done={} polls={} (a_task={a_task})", t.id, t.name, t.runnable(), t.is_done(), t.polls());
+        }
+        eprintln!("ready A {:?} B {:?}", ev_a.lock().unwrap().ready, ev_b.lock().unwrap().ready);
+    }
+    // 3. time passes
+    if adv > 0 {
+        tokio::time::advance(std::time::Duration::from_millis(adv)).await;
+    }
+    schedule_except(&ctl, rng, 200_000, st, &starve).await;
+    // 4. A's NodeServer is back
+    let quiet = schedule(&ctl, rng, 200_000, st).await;
+    if !quiet {
+        st.bump("not_quiescent");
+    }
+    let sa = sessions(&ctl, rng, st, &a).await;
+    let sb = sessions(&ctl, rng, st, &b).await;
+    let fmt = |v: &Vec<String>| if v.is_empty() { "-".to_string() } else { v.join(",") };
+    let (ra, rb) = (ev_a.lock().unwrap().ready.clone(), ev_b.lock().unwrap().ready.clone());
+    st.bump(&format!("e2t_adv_{adv}"));
+    log.rec(
+        format!("e2t {na}@{host} {nb}@{host} adv={adv} c1={}", if c1_by_a { "a" } else { "b" }),
+        format!("{}/{} {}|{}|{}|{}", fmt(&before_a), fmt(&before_b), fmt(&sa), fmt(&sb), fmt(&ra), fmt(&rb)),
+    );
+    a.stop(None);
+    b.stop(None);
+    schedule(&ctl, rng, 200_000, st).await;
+    ractor::verif::uninstall();
+    ha.abort();
+    hb.abort();
+}
+
+
+/// The session actors a node currently lists, by connection label.
+async fn session_actors(
+    ctl: &ractor::verif::Controller,
+    rng: &mut Rng,
+    st: &mut Stats,
+    node: &ActorRef<NodeServerMessage>,
+) -> Vec<(String, ActorRef<ractor_cluster::NodeSessionMessage>)> {
+    let node = node.clone();
+    let h = tokio::spawn(async move { ractor::call_t!(node, NodeServerMessage::GetSessions, 60_000) });
+    let mut guard = 0;
+    while !h.is_finished() {
+        schedule(ctl, rng, 50, st).await;
+        tokio::task::yield_now().await;
+        guard += 1;
+        if guard > 2000 {
+            return vec![];
+        }
+    }
+    match h.await {
+        Ok(Ok(m)) => m.into_values().map(|s| (s.peer_addr.clone(), s.actor.clone())).collect(),
+        _ => vec![],
+    }
+}
+
+/// Session death, NodeServer cleanup and re-election on reconnection, through the REAL handlers
+/// (`handle_supervisor_evt`, `ConnectionOpenedExternal`, `commit_authenticated`):
+///  1. `k1` connections converge on one link;
+///  2. that link's session is stopped on one node (`by`): its transport closes, the other node's
+///     session exits too; at rest NEITHER node may list or elect anything of the dead link;
+///  3. `k2` fresh connections are dialled: both nodes converge on one of the NEW ones.
+/// op   `e2r <nameA> <nameB> <dirs1> <dirs2> by=<a|b>`
+/// impl `<A kept>|<B kept> <A kept>|<B kept> <A kept>|<B kept>|<A ready of kept>|<B ready of kept>|<A disconnected, sorted>|<B …>`
+async fn reconnect_case(log: &mut Log, st: &mut Stats, rng: &mut Rng, case_no: u64) {
+    let pool = [("a", "b"), ("b", "a"), ("n1", "n10"), ("x", "Y")];
+    let (na, nb) = *rng.pick(&pool);
+    let host = format!("r{case_no}");
+    let k1 = rng.range(1, 3) as usize;
+    let k2 = rng.range(1, 3) as usize;
+    let dirs: Vec<bool> = (0..k1 + k2).map(|_| rng.chance(1, 2)).collect();
+    let by_a = rng.chance(1, 2);
+    let ctl = ractor::verif::install();
+    let Some((a, ha, _)) = spawn_node_alone(&ctl, rng, st, na, &host).await else {
+        ractor::verif::uninstall();
+        return;
+    };
+    let Some((b, hb, _)) = spawn_node_alone(&ctl, rng, st, nb, &host).await else {
+        ractor::verif::uninstall();
+        return;
+    };
+    let ev_a = Arc::new(Mutex::new(Events::default()));
+    let ev_b = Arc::new(Mutex::new(Events::default()));
+    a.cast(NodeServerMessage::SubscribeToEvents { id: "v".into(), subscription: Box::new(Sub(ev_a.clone())) }).unwrap();
+    b.cast(NodeServerMessage::SubscribeToEvents { id: "v".into(), subscription: Box::new(Sub(ev_b.clone())) }).unwrap();
+    schedule(&ctl, rng, 200, st).await;
+    let fmt = |v: &Vec<String>| if v.is_empty() { "-".to_string() } else { v.join(",") };
+    let open_some = async |range: std::ops::Range<usize>, rng: &mut Rng, st: &mut Stats| {
+        for i in range {
+            let (sa, sb) = tokio::io::duplex(64 * 1024);
+            let a_is_server = !dirs[i];
+            a.cast(NodeServerMessage::ConnectionOpenedExternal { stream: Box::new(Duplex { stream: sa, label: format!("c{i}") }), is_server: a_is_server }).unwrap();
+            let n = rng.below(12) as usize;
+            schedule(&ctl, rng, n, st).await;
+            b.cast(NodeServerMessage::ConnectionOpenedExternal { stream: Box::new(Duplex { stream: sb, label: format!("c{i}") }), is_server: !a_is_server }).unwrap();
+            let n = *rng.pick(&[0usize, 3, 10, 40, 400]);
+            schedule(&ctl, rng, n, st).await;
+        }
+        schedule(&ctl, rng, 200_000, st).await;
+    };
+    // 1.
+    open_some(0..k1, rng, st).await;
+    let s1a = sessions(&ctl, rng, st, &a).await;
+    let s1b = sessions(&ctl, rng, st, &b).await;
+    // 2. the link's session dies on one node
+    let victim = if by_a { &a } else { &b };
+    for (_, actor) in session_actors(&ctl, rng, st, victim).await {
+        actor.stop(Some("killed-by-harness".to_string()));
+    }
+    schedule(&ctl, rng, 200_000, st).await;
+    let s2a = sessions(&ctl, rng, st, &a).await;
+    let s2b = sessions(&ctl, rng, st, &b).await;
+    // 3. reconnection
+    open_some(k1..k1 + k2, rng, st).await;
+    let s3a = sessions(&ctl, rng, st, &a).await;
+    let s3b = sessions(&ctl, rng, st, &b).await;
+    let ready_of = |ev: &Arc<Mutex<Events>>, kept: &Vec<String>| {
+        let mut r: Vec<String> = ev.lock().unwrap().ready.iter().filter(|l| kept.contains(l)).cloned().collect();
+        r.sort();
+        r
+    };
+    let disc = |ev: &Arc<Mutex<Events>>| {
+        let mut d = ev.lock().unwrap().disconnected.clone();
+        d.sort();
+        d
+    };
+    st.bump("e2r");
+    let ds = |r: std::ops::Range<usize>| -> String { dirs[r].iter().map(|d| if *d { 'a' } else { 'b' }).collect() };
+    log.rec(
+        format!("e2r {na}@{host} {nb}@{host} {} {} by={}", ds(0..k1), ds(k1..k1 + k2), if by_a { "a" } else { "b" }),
+        format!(
+            "{}|{} {}|{} {}|{}|{}|{}|{}|{}",
+            fmt(&s1a), fmt(&s1b), fmt(&s2a), fmt(&s2b), fmt(&s3a), fmt(&s3b),
+            fmt(&ready_of(&ev_a, &s3a)), fmt(&ready_of(&ev_b, &s3b)), fmt(&disc(&ev_a)), fmt(&disc(&ev_b))
+        ),
+    );
+    a.stop(None);
+    b.stop(None);
+    schedule(&ctl, rng, 200_000, st).await;
+    ractor::verif::uninstall();
+    ha.abort();
+    hb.abort();
+}
+
 async fn one_case(log: &mut Log, st: &mut Stats, rng: &mut Rng, case_no: u64) {
     let pool = [("a", "b"), ("b", "a"), ("n1", "n10"), ("x", "Y"), ("node2", "node10")];
     let (na, nb) = *rng.pick(&pool);
@@ -189,13 +449,15 @@ async fn one_case(log: &mut Log, st: &mut Stats, rng: &mut Rng, case_no: u64) {
     let sb = sessions(&ctl, rng, st, &b).await;
     let alive_ready = |ev: &Arc<Mutex<Events>>, kept: &Vec<String>| {
         let e = ev.lock().unwrap();
+        // NO de-duplication: a session reported ready twice shows up twice
         let mut r: Vec<String> = e.ready.iter().filter(|l| kept.contains(l)).cloned().collect();
         r.sort();
-        r.dedup();
         (r, e.ready.len())
     };
     let (ra, nra) = alive_ready(&ev_a, &sa);
     let (rb, nrb) = alive_ready(&ev_b, &sb);
+    // the raw event streams, in order of arrival (ready events of sessions closed since included)
+    let (raw_a, raw_b) = (ev_a.lock().unwrap().ready.clone(), ev_b.lock().unwrap().ready.clone());
     st.add("ready_events", (nra + nrb) as u64);
     if dirs.iter().any(|d| *d) && dirs.iter().any(|d| !*d) {
         st.bump("e2e_both_directions");
@@ -205,7 +467,7 @@ async fn one_case(log: &mut Log, st: &mut Stats, rng: &mut Rng, case_no: u64) {
     let fmt = |v: &Vec<String>| if v.is_empty() { "-".to_string() } else { v.join(",") };
     log.rec(
         format!("e2e {na}@{host} {nb}@{host} {k} {dirs_s}"),
-        format!("{}|{}|{}|{}", fmt(&sa), fmt(&sb), fmt(&ra), fmt(&rb)),
+        format!("{}|{}|{}|{}|{}|{}", fmt(&sa), fmt(&sb), fmt(&ra), fmt(&rb), fmt(&raw_a), fmt(&raw_b)),
     );
 
     // tear down: stop both nodes and let everything run to completion
@@ -228,6 +490,12 @@ async fn main() {
     let mut st = Stats::default();
     for c in 0..cases {
         one_case(&mut log, &mut st, &mut rng, c).await;
+        if c % 10 == 7 {
+            timeout_case(&mut log, &mut st, &mut rng, c).await;
+        }
+        if c % 10 == 3 {
+            reconnect_case(&mut log, &mut st, &mut rng, c).await;
+        }
     }
     st.add("lines", log.lines);
     st.write_json(&std::path::Path::new(&out).join("stats.json"));
